@@ -48,7 +48,10 @@ func main() {
 			}
 			return 8 * time.Minute
 		},
-		Work: work,
+		// one case = one stream with up to several thousand executions; each execution has
+		// its own 20 s no-progress watchdog inside the rig
+		CaseTimeout: 10 * time.Minute,
+		Work:        work,
 	})
 }
 
@@ -264,6 +267,9 @@ func serverStream(w *mon.W, c *mon.Case, get func(scfg) *sengine, kind string, e
 	}
 	buf := r.Int(4096, 4096, 100, 8192)
 	rsz := r.Int(1, 7, 4096, 32768)
+	if kind == "big" && rsz < 7 {
+		rsz = 7 // byte-wise handler reads over 20 KB bodies x thousands of segmentations only cost time
+	}
 	rs := func(k int) int { return rsz }
 	c.Detail = func() interface{} {
 		return map[string]interface{}{"direction": "server", "kind": kind, "streaming": cf.stream, "buf": buf, "read_size": rsz, "requests": descs, "mutations": mdesc, "stream": trunc(string(stream), 3000), "stream_len": len(stream)}
